@@ -276,6 +276,25 @@ def geoms(tier):
     return GEOMS_QUICK if tier == 'quick' else GEOMS_THOROUGH
 
 
+def remote_opts(cols, lines):
+    """GridRun options for a screen far from the small geometries: only a few cells around the corners,
+    the middle and the 8-bit boundaries may have been written, and the cursor is at one of those places
+    (incl. the pending-wrap column).  Everything else stays as symbolic as on the small screens."""
+    xs = sorted({x for x in (0, cols // 2, 255, 256, cols - 1) if 0 <= x < cols})
+    ys = sorted({y for y in (0, lines // 2, 255, 256, lines - 1) if 0 <= y < lines})
+    cells = sorted({(0, 0), (0, cols - 1), (lines - 1, 0), (lines - 1, cols - 1), (lines // 2, cols // 2)})
+    cur = [(x, y) for y in ys for x in xs + [cols]]
+    return {'buffer': ('sparse', cells), 'cursor': ('among', cur)}
+
+
+REMOTE_QUICK = [(9, 6)]
+REMOTE_THOROUGH = [(9, 6), (258, 2), (2, 258), (17, 9)]
+
+
+def remote_geoms(tier):
+    return REMOTE_QUICK if tier == 'quick' else REMOTE_THOROUGH
+
+
 def feed_csi(run, ctx, final, ndigits, tag='d'):
     """Feed `CSI <ndigits symbolic decimal digits> final` through Parser<Screen> of a GridRun.
     Returns the parameter the recogniser delivers as (True, 32-bit term) -- 0 when no digit was sent."""
